@@ -11,8 +11,9 @@ c.param("process", T.Ref("Process")).param("use_psutil", T.Bool, default=VBool(T
 c.ensures("kill/marks-killed", "G.killed[process] and G.joined[process]")
 c.ensures("kill/others-untouched", "forall(Ref('Process'), lambda q: implies(q is not process, G.killed[q] == old(G.killed[q]) and G.joined[q] == old(G.joined[q])))")
 c.raises("kill/lookup-error-tolerated", "ProcessLookupError",
-         post="forall(Ref('Process'), lambda q: implies(q is not process, G.killed[q] == old(G.killed[q]) and G.joined[q] == old(G.joined[q])))")
+         post="G.killed[process] and G.joined[process] and forall(Ref('Process'), lambda q: implies(q is not process, G.killed[q] == old(G.killed[q]) and G.joined[q] == old(G.joined[q])))")
 c.modifies("G.killed", "G.joined")
+c.note("ProcessLookupError means the pid no longer exists (already reaped): counted as killed-and-reaped")
 
 c = M.contract("get_exitcodes_terminated_worker", props=["C02"])
 c.param("processes", T.Map(T.Int, T.Ref("Process")))
